@@ -310,6 +310,114 @@ Definition must_be_inert (sdp_ok : string -> bool) (tag : N) (i : input) : bool 
               (tag_local_session tag && media_invalid_doc sdp_ok (tag_inroom tag) j)
   end.
 
+(* ---- protocol 2.0 hellos: the lifetime of the token ---------------------------------------------
+   ("Establish connection", protocol version 2.0: the token is a JWT with the claims iss, iat, exp, sub
+   (and userdata); the property text of C01 - which this layer hands its hellos to -: the token must be
+   currently time-valid.)  In the cases files a token is written as the descriptor the harness makes the
+   real token from when the frame is sent (c10_tok_verif_test.go):
+
+       @TOK:<backend>:<alg>:<signer>:<iat>:<nbf>:<exp>:<garble>@
+
+   iat / nbf / exp in seconds relative to the moment of sending, "_" = the claim is absent.  A token is
+   certainly NOT time-valid when it has no iat, no exp, an exp before its iat, or when exp / iat / nbf are
+   on the wrong side of now by more than twice the server's leeway (one minute; the factor two keeps the
+   clause independent of how long the frame is on its way).  Such a hello - whatever its auth type: client
+   and federation hellos alike - must be refused: exactly one error with a code, no session (the hub's tables
+   as before), nobody else told.  One direction only: nothing is said here about the other tokens. *)
+Fixpoint split_on (sep : ascii) (s : string) : list string :=
+  match s with
+  | EmptyString => [EmptyString]
+  | String c r =>
+      let l := split_on sep r in
+      if Ascii.eqb c sep then EmptyString :: l
+      else match l with h :: t => String c h :: t | [] => [String c EmptyString] end
+  end.
+Fixpoint digits_val (s : string) (acc : Z) : option Z :=
+  match s with
+  | EmptyString => Some acc
+  | String c r =>
+      let n := nat_of_ascii c in
+      if Nat.leb 48 n && Nat.leb n 57 then digits_val r (acc * 10 + Z.of_nat (n - 48))%Z else None
+  end.
+(* "_" absent, "-12" / "12" seconds relative to now; anything else: not a descriptor *)
+Definition rel_time (s : string) : option (option Z) :=
+  match s with
+  | EmptyString => None
+  | String c r =>
+      if Ascii.eqb c "_" then match r with EmptyString => Some None | _ => None end
+      else if Ascii.eqb c "-" then
+        match r with EmptyString => None | _ => option_map (fun z => Some (- z)%Z) (digits_val r 0) end
+      else option_map Some (digits_val s 0)
+  end.
+Fixpoint ends_with_at (s : string) : bool :=
+  match s with
+  | EmptyString => false
+  | String c EmptyString => Ascii.eqb c "@"
+  | String _ r => ends_with_at r
+  end.
+(* (iat, nbf, exp) of a token descriptor *)
+Definition token_times (s : string) : option (option Z * option Z * option Z) :=
+  match split_on ":" s with
+  | [h; _; _; _; i; n; e; g] =>
+      if String.eqb h "@TOK" && ends_with_at g then
+        match rel_time i, rel_time n, rel_time e with
+        | Some i, Some n, Some e => Some (i, n, e)
+        | _, _, _ => None
+        end
+      else None
+  | _ => None
+  end.
+Definition token_leeway : Z := 60.
+Definition token_untimely (t : option Z * option Z * option Z) : bool :=
+  let '(i, n, e) := t in
+  match i with None => true | Some i => (2 * token_leeway <=? i)%Z end ||
+  match e with
+  | None => true
+  | Some e => (e <=? - (2 * token_leeway))%Z || match i with Some i => (e <? i)%Z | None => false end
+  end ||
+  match n with Some n => (2 * token_leeway <=? n)%Z | None => false end.
+
+(* the token of a protocol 2.0 hello that authenticates (no resume id) as client or for a federated room *)
+Definition hello_v2_token (j : json) : option string :=
+  match j with
+  | JObj ms =>
+      if String.eqb (str_or_empty "type" ms) "hello" then
+        match single_obj "hello" ms with
+        | Some h =>
+            if String.eqb (str_or_empty "version" h) "2.0" && String.eqb (str_or_empty "resumeid" h) "" then
+              match single_obj "auth" h with
+              | Some a =>
+                  if in_list (str_or_empty "type" a) [""; "client"; "federation"] then
+                    match single_obj "params" a with
+                    | Some p => eff_str "token" p
+                    | None => None
+                    end
+                  else None
+              | None => None
+              end
+            else None
+        | None => None
+        end
+      else None
+  | _ => None
+  end.
+
+Definition hello_token_untimely (j : json) : bool :=
+  match hello_v2_token j with
+  | Some t => match token_times t with Some ts => token_untimely ts | None => false end
+  | None => false
+  end.
+
+(* on a connection without session: a 2.0 hello whose token is certainly not time-valid *)
+Definition must_refuse_hello (tag : N) (i : input) : bool :=
+  match i with
+  | IDoc j => N.eqb tag 0 && hello_token_untimely j
+  | _ => false
+  end.
+Definition refused (o : obs) : bool :=
+  match o_replies o with [RError code _] => negb (String.eqb code "") | _ => false end &&
+  match o_by o with [] => true | _ => false end && o_dsame o && negb (o_closed o) && Z.eqb (o_off o) 0.
+
 (* only these messages can make the server send something to the members of a room or to
    another session - so only they can add to the queue of a session without connection *)
 Definition off_allowed (tag : N) (i : input) : bool :=
@@ -358,7 +466,8 @@ Definition P_one (sdp_ok : string -> bool) (tag : N) (i : input) (o : obs) : boo
   (negb (must_be_inert sdp_ok tag i) ||
    (match o_replies o with [r] => is_error r | _ => false end &&
     match o_by o with [] => true | _ => false end && o_dsame o && negb (o_closed o) && Z.eqb (o_api o) 0 &&
-    Z.eqb (o_off o) 0)).
+    Z.eqb (o_off o) 0)) &&
+  (negb (must_refuse_hello tag i) || refused o).
 
 Definition step := (N * option input * obs)%type.
 Definition mkstep (tag : N) (i : input) (o : obs) : step := (tag, Some i, o).
